@@ -7,7 +7,7 @@ import math
 
 import z3
 
-from .values import ONE, ExcVal, Space, SubSpace, SymRaise, Undecided, V, _b, _or, broadcast_axes, fresh_name, ite, num, real, root_space, same_axis, to_term
+from .values import only_kw, ONE, ExcVal, Space, SubSpace, SymRaise, Undecided, V, _b, _or, broadcast_axes, fresh_name, ite, num, real, root_space, same_axis, to_term
 
 TRUSTED = []
 CUR = None  # the interpreter of the path being executed (set by the harness)  # human-readable list of the assumed contracts actually *used* in a run
@@ -299,6 +299,7 @@ def np_full(shape, fill_value):
 
 
 def np_asarray(x, *a, **k):
+    only_kw("theory_np.np_asarray", k)
     if isinstance(x, V):
         return V(x.t, x.axes, None, x.nan, x.inf)
     if hasattr(x, "as_v"):
@@ -409,6 +410,7 @@ class QuantileRegistry:
 
 def make_np_quantile(interp):
     def np_quantile(x, q=None, axis=None, **kw):
+        only_kw("theory_np.np_quantile", kw)
         _use("numpy.quantile(x,q,axis): raises ValueError unless 0<=q<=1; monotone non-decreasing in q; a function of (x, q) only")
         if kw:
             raise Undecided(f"np.quantile options {sorted(kw)}")
@@ -528,11 +530,13 @@ def make_reductions(interp):
     from . import sums
 
     def np_sum(x, axis=None, **kw):
+        only_kw("theory_np.np_sum", kw)
         if isinstance(x, (list, tuple)):
             return sum(x)
         return sums.reduce_sum(interp, lift(x), axis)
 
     def np_mean(x, axis=None, **kw):
+        only_kw("theory_np.np_mean", kw)
         return sums.reduce_mean(interp, lift(x), axis)
 
     def _scalar(x):
@@ -541,12 +545,14 @@ def make_reductions(interp):
         return v if not [a for a in v.axes if a is not ONE] else None
 
     def np_min(x, axis=None, **kw):
+        only_kw("theory_np.np_min", kw)
         s0 = _scalar(x)
         if s0 is not None and axis is None:
             return s0  # numpy.min of a scalar is the scalar
         return sums.reduce_minmax(interp, lift(x), axis, "min")
 
     def np_max(x, axis=None, **kw):
+        only_kw("theory_np.np_max", kw)
         s0 = _scalar(x)
         if s0 is not None and axis is None:
             return s0
@@ -605,6 +611,7 @@ def v_getattr(interp, v, name):
     if name == "astype":
 
         def astype(ty, **k):
+            only_kw("theory_np.astype", k)
             tyname = getattr(ty, "__name__", str(ty))
             tyname = {"py_int": "int", "py_float": "float", "py_str": "str"}.get(tyname, tyname)
             if tyname in ("int", "int64", "<class 'int'>"):
@@ -646,6 +653,7 @@ def v_getattr(interp, v, name):
     if name == "apply":
 
         def apply(fn, **kw):
+            only_kw("theory_np.apply", kw)
             _use("Series.apply(f): f applied to every element (pointwise)")
             r = fn(V(v.t, (), None, v.nan, v.inf))
             r = lift(r)
@@ -657,6 +665,7 @@ def v_getattr(interp, v, name):
     if name == "clip":
 
         def clip(min=None, max=None, lower=None, upper=None, **kw):
+            only_kw("theory_np.clip", kw)
             return np_clip(v, a_min=min if min is not None else lower, a_max=max if max is not None else upper)
 
         return clip
@@ -688,6 +697,7 @@ def v_getattr(interp, v, name):
     if name == "fillna":
 
         def fillna(value=None, **kw):
+            only_kw("theory_np.fillna", kw)
             if v.nan is None:
                 return v
             vt, ct = to_term(value), v.t
@@ -702,6 +712,7 @@ def v_getattr(interp, v, name):
     if name == "where":
 
         def where(cond, other=float("nan"), **kw):
+            only_kw("theory_np.where", kw)
             _use("Series.where(cond, other): the value where cond holds, `other` elsewhere")
             if kw:
                 raise Undecided("Series.where options")
